@@ -15,7 +15,8 @@ import logging  # noqa: E402
 
 warnings.filterwarnings("ignore", category=DeprecationWarning)
 logging.getLogger("rdflib.term").setLevel(logging.ERROR)
-from rdflib import Dataset, Graph, Literal, URIRef  # noqa: E402
+from rdflib import ConjunctiveGraph, Dataset, Graph, Literal, URIRef  # noqa: E402
+from rdflib.namespace import NamespaceManager  # noqa: E402
 from rdflib.plugins.stores.memory import Memory, SimpleMemory  # noqa: E402
 
 XMLNS = "http://www.w3.org/XML/1998/namespace"
@@ -118,14 +119,18 @@ def store_dicts(store):
     return getattr(store, f"_{cls}__namespace"), getattr(store, f"_{cls}__prefix")
 
 
-def snapshot(g, res, names=()):
+def snapshot(g, res, names=(), views=()):
     """list(namespaces()), the namespace->prefix dictionary, and whether the public
-    lookups store.namespace / store.prefix / Graph.namespaces agree with them"""
+    lookups store.namespace / store.prefix / Graph.namespaces (through g and through every
+    other graph object in views) agree with them"""
     store = g.store
     lst = [(p, str(n)) for p, n in store.namespaces()]
     p2n, n2p = store_dicts(store)
     rev = [(str(n), p) for n, p in n2p.items()]
     api = [(p, str(n)) for p, n in g.namespaces()] == lst
+    for v in views:
+        api = api and v.store is store and [(p, str(n)) for p, n in v.namespaces()] == lst
+        api = api and [(p, str(n)) for p, n in v.namespace_manager.namespaces()] == lst
     api = api and [(p, str(n)) for p, n in p2n.items()] == lst
     for p, n in lst:
         api = api and store.namespace(p) is not None and str(store.namespace(p)) == n
@@ -192,11 +197,44 @@ def do_op(g, op):
     raise ValueError(k)
 
 
+def pack_obs(obs):
+    """observation as a string table + snapshots that refer to it by index"""
+    tab, idx = [], {}
+
+    def ix(x):
+        if x not in idx:
+            idx[x] = len(tab)
+            tab.append(x)
+        return cN(idx[x])
+
+    def ires(r):
+        k = r[0]
+        if k == "unit":
+            return "IUnit"
+        if k == "exn":
+            return "(IExn EKey)" if r[1] == "KeyError" else "(IExn EValue)" if r[1] == "ValueError" else f"(IS {ix('!!' + r[1])})"
+        if k == "q":
+            return f"(IQ {ix(r[1])} {ix(r[2][0])} {ix(r[2][1])} {ix(r[2][2])} {copt(r[3], ix)})"
+        if k == "t":
+            return f"(IT {ix(r[1][0])} {ix(r[1][1])} {ix(r[1][2])})"
+        return f"(IS {ix(r[1])})"
+
+    snaps = []
+    for s in obs:
+        snaps.append("{| i_res := " + ires(s["res"]) + "; i_list := " + clist(ctuple(ix(a), ix(b)) for a, b in s["list"])
+                     + "; i_rev := " + clist(ctuple(ix(a), ix(b)) for a, b in s["rev"]) + "; i_api := " + cbool(s["api"]) + " |}")
+    body = clist(snaps)  # fills the table
+    return clist(cstr(x) for x in tab), body
+
+
 class C17(Suite):
     name = "nsmanager"
     imports = "From RV Require Import Namespace.Model."
     case_ty = "case"
-    obs_ty = "obs"
+    obs_ty = "dobs"
+    model = "d_model"
+    oeq = "d_eqb"
+    spec = "d_spec"
     corr = ("NamespaceManager.bind/_store_bind/compute_qname/compute_qname_strict/qname/curie/normalizeUri/"
             "expand_curie/reset, split_uri, is_ncname, insert_trie/insert_strie/get_longest_namespace, "
             "Memory.bind/prefix/namespace/namespaces (and SimpleMemory)")
@@ -272,10 +310,11 @@ class C17(Suite):
 
     def coq_case(self, case):
         cats = clist(ctuple(cN(c), cN(k)) for c, k in cat_table(case))
-        return "{| c_cats := " + cats + "; c_ops := " + clist(c_op(o) for o in case["ops"]) + " |}"
+        return "{| c_cats := " + cats + "; c_ops := " + clist(c_op(o) for o in case["ops"]) + "; c_tag := 0%N |}"
 
     def coq_obs(self, obs):
-        return clist(c_snap(s) for s in obs)
+        tab, body = pack_obs(obs)
+        return f"(Packed {tab} {body})"
 
     def nontrivial(self, case, obs):
         kinds = [o[0] for o in case["ops"]]
@@ -450,35 +489,10 @@ class C17Conf(Suite):
                 ops.append("OOther")
             else:
                 ops.append(c_op(op))
-        return "{| c_cats := []; c_ops := " + clist(ops) + " |}"
+        return "{| c_cats := []; c_ops := " + clist(ops) + "; c_tag := 0%N |}"
 
     def coq_obs(self, obs):
-        tab, idx = [], {}
-
-        def ix(x):
-            if x not in idx:
-                idx[x] = len(tab)
-                tab.append(x)
-            return cN(idx[x])
-
-        def ires(r):
-            k = r[0]
-            if k == "unit":
-                return "IUnit"
-            if k == "exn":
-                return "(IExn EKey)" if r[1] == "KeyError" else "(IExn EValue)" if r[1] == "ValueError" else f"(IS {ix('!!' + r[1])})"
-            if k == "q":
-                return f"(IQ {ix(r[1])} {ix(r[2][0])} {ix(r[2][1])} {ix(r[2][2])} {copt(r[3], ix)})"
-            if k == "t":
-                return f"(IT {ix(r[1][0])} {ix(r[1][1])} {ix(r[1][2])})"
-            return f"(IS {ix(r[1])})"
-
-        snaps = []
-        for s in obs:
-            snaps.append("{| i_res := " + ires(s["res"]) + "; i_list := " + clist(ctuple(ix(a), ix(b)) for a, b in s["list"])
-                         + "; i_rev := " + clist(ctuple(ix(a), ix(b)) for a, b in s["rev"]) + "; i_api := " + cbool(s["api"]) + " |}")
-        body = clist(snaps)  # fills the table
-        return ctuple(clist(cstr(x) for x in tab), body)
+        return ctuple(*pack_obs(obs))
 
     def nontrivial(self, case, obs):
         kinds = {o[0] for o in case["ops"]}
